@@ -65,7 +65,7 @@ PROFILES = {
                 gens=[dict(ids=REGEN, first=["simulate", "generate"], edits=["regenerate", "regenerate", "regenerate", "update"], depth=3, n=(128, 2400)),
                       dict(ids=REGEN_SLOW, first=["simulate"], edits=["regenerate"], depth=2, n=(24, 400))]),
     "C08": dict(own=["nochange", "tagging", "tagging.run"],
-                gens=[dict(ids=["SLit", "SLit", "SOne", "SChain", "SNest", "S2", "S2", "Dm", "Dm2", "DmMap", "DmCon", "Msk", "VmS", "VmAx", "SwSame", "SVm"], ids_thorough=FAST + ["SLit", "S2", "Dm2"],
+                gens=[dict(ids=["SLit", "SLit", "SOne", "SChain", "SNest", "S2", "S2", "Dm", "Dm2", "DmMap", "DmCon", "Msk", "VmS", "VmAx", "SwSame", "SVm", "OrE", "OrE", "MskSw", "SDm"], ids_thorough=FAST + ["SLit", "S2", "Dm2"],
                            first=["simulate", "generate"], edits=["update", "update", "update", "updateargs", "regenerate", "staticreq"], depth=3, n=(160, 2400)),
                       dict(ids=SLOW, first=["simulate"], edits=["update", "updateargs", "indexupdate"], depth=2, n=(24, 500))]),
     "C10": dict(own=["project.value", "project.split", "run"],
